@@ -45,7 +45,8 @@ def broken_config_combinations():
     import re
     path = os.path.join(os.environ.get("VERIF_LEAN", os.path.join(vbuild.VERIF, "lean")), "AdeptModel", "Generated", "StorageCfg.lean")
     try:
-        return re.findall(r'\("(ADEPT_\w+)", false\)', open(path).read())
+        # the table without _OPENMP only: the ThreadSanitizer builds have no OpenMP
+        return re.findall(r'\("(ADEPT_\w+)", false\)', open(path).read().split("def threadSafeUnderConfigOpenMP")[0])
     except OSError:
         return []
 
@@ -57,14 +58,14 @@ MINI_LAPACK = os.path.join(vbuild.VERIF, "harness", "mini_lapack.cpp")     # ins
 def build(thread_safe, also=()):
     defs = (["ADEPT_STORAGE_THREAD_SAFE"] if thread_safe else []) + ["HAVE_LAPACK=1"] + list(also)
     return vbuild.build("threads", [DRV, MINI_LAPACK], defines=defs, cxx="clang++-14", san="tsan",
-                        extra=["-std=c++17", "-U" + vbuild.GUARD], link=["-pthread"], no_openmp=True)
+                        extra=["-std=c++17", "-U" + vbuild.GUARD], link=["-pthread", "-Wl,--wrap=_Znam"], no_openmp=True)
 
 
 def build_omp():
     """g++ -fopenmp build without ThreadSanitizer (libgomp is not instrumented): the workloads run by the members of one
     OpenMP team; ASan/UBSan stay on as observers"""
     return vbuild.build("threads-omp", [DRV, MINI_LAPACK], defines=["HAVE_LAPACK=1"], san="none",
-                        extra=["-std=c++17", "-U" + vbuild.GUARD], link=["-pthread"])
+                        extra=["-std=c++17", "-U" + vbuild.GUARD], link=["-pthread", "-Wl,--wrap=_Znam"])
 
 
 # ------------------------------------------------------------------ TSan reports
@@ -132,19 +133,22 @@ def kv(line):
     return d
 
 
-def judge_workload(res, mode, T):
+def judge_workload(res, mode, T, grow=False):
     """independent judgement of one run from the driver's output alone -> list of (message, signature)"""
     bad = []
     lines = res["lines"]
     if res["rc"] != 0 or not any(l.startswith("done") for l in lines):
         bad.append(("the workload did not complete (rc=%s): %s" % (res["rc"], (res["stderr"] or "\n".join(lines[-3:]))[-600:]), "crash:" + mode))
     solo, par = {}, {}
+    seen_flt = False
     for l in lines:
         w = l.split()
         if w[0] == "solo":
             solo[int(w[1])] = (kv(l).get("n"), kv(l).get("h"))
         elif w[0] == "par":
             par[int(w[1])] = (kv(l).get("n"), kv(l).get("h"), kv(l).get("eq"))
+        elif w[0] == "flt":
+            seen_flt = True
         elif w[0] in ("exc", "exception"):
             bad.append(("an exception escaped a thread's workload: " + l[:300], "exception:" + mode))
     for k in range(T):
@@ -155,6 +159,8 @@ def judge_workload(res, mode, T):
         if solo[k][:2] != par[k][:2] or par[k][2] != "1":
             bad.append(("thread %d obtained different results when run concurrently (n=%s h=%s) than alone (n=%s h=%s)"
                         % (k, par[k][0], par[k][1], solo[k][0], solo[k][1]), "result-differs:" + mode))
+    if mode in ("c12", "c12omp") and not seen_flt and not bad:
+        bad.append(("the allocation-fault record of the Stack constructors is missing", "missing-result"))
     for l in lines:
         d = kv(l)
         if l.startswith("act "):
@@ -164,10 +170,25 @@ def judge_workload(res, mode, T):
             for key in ("owner_samples", "stackless_samples") + (() if mode == "c12omp" else ("idle_threads_samples", "main_samples")):
                 if int(d.get(key, "0")) <= 0:
                     bad.append(("no active_stack() sample was taken (%s)" % key, "active-stack:no-sample"))
+        elif l.startswith("flt "):
+            if d.get("fault_active_changed") != "0":
+                bad.append(("after a Stack constructor failed with std::bad_alloc (allocation fault injected in that thread) active_stack() "
+                            "of the thread is not what it was before: %s" % l, "active-stack:after-failed-constructor"))
+            if grow and int(d.get("max_allocated_operations", "0")) < 2 * int(d.get("initial_stack_length", "1")):
+                bad.append(("the small-initial-length build did not make the stacks grow: %s" % l,
+                            "stack-growth:no-sample"))
+            if int(d.get("fault_samples", "0")) <= 0:
+                bad.append(("no allocation fault was injected into a Stack constructor (%s)" % l, "active-stack:no-sample"))
         elif l.startswith("stor "):
             if "live" in d and "expect" not in d and d["live"] != "0":
                 bad.append(("n_storage_objects() == %s after all threads have joined and every array is destroyed" % d["live"], "storage-count"))
-            for key in ("links_before", "links_after", "live_after"):
+            for key in ("soft_links_changed_solo", "soft_links_changed_par"):
+                if key in d and d[key] != "0":
+                    bad.append(("a soft link (or a link/copy/view derived from it) changed n_links() of the data it refers to or owns a "
+                                "Storage: %s" % l, "soft-link-counted"))
+            if "soft_invariant_samples" in d and int(d["soft_invariant_samples"]) <= 0:
+                bad.append(("no soft-link invariant sample was taken (%s)" % l, "soft-link:no-sample"))
+            for key in ("links_before", "links_after", "live_after", "symm_links_before", "symm_links_after", "zoo_links_after"):
                 if key in d and d[key] != d.get("expect"):
                     bad.append(("%s=%s, expected %s (%s)" % (key, d[key], d.get("expect"), l), "storage-count"))
             if "created_par" in d:
@@ -191,13 +212,13 @@ def judge_workload(res, mode, T):
     return out
 
 
-def run_many(ctx, exe, label, mode, cases, workers=4):
+def run_many(ctx, exe, label, mode, cases, workers=4, grow=False):
     """cases: list of (T, wseed, rounds).  Reports violations; returns number of failing runs."""
     nfail = 0
     with ThreadPoolExecutor(max_workers=workers) as ex:
         results = list(ex.map(lambda c: run_workload(exe, mode, c[0], c[1], c[2]), cases))
     for (T, wseed, rounds), res in zip(cases, results):
-        verdicts = judge_workload(res, mode, T)
+        verdicts = judge_workload(res, mode, T, grow=grow)
         ctx.count_case((label, mode, T, wseed, rounds), nontrivial=True,
                        sample={"build": label, "mode": mode, "threads": T, "workload_seed": wseed, "rounds": rounds,
                                "tsan_reports": len(res["reports"]), "last": res["lines"][-2:] if res["lines"] else None})
@@ -222,7 +243,8 @@ def run_many(ctx, exe, label, mode, cases, workers=4):
 def replay_workload(ctx, r):
     b = r["build"]
     exe = build_omp() if b == "openmp-team" else build(b.startswith("thread-safe"), also=b.split("+")[1:])
-    run_many(ctx, exe, r["build"], r["mode"], [(r["threads"], r["workload_seed"], r["rounds"])], workers=1)
+    run_many(ctx, exe, r["build"], r["mode"], [(r["threads"], r["workload_seed"], r["rounds"])], workers=1,
+             grow="ADEPT_INITIAL_STACK_LENGTH" in b)
 
 
 # ------------------------------------------------------------------ deterministic schedules: C++ threads vs Lean machine
@@ -254,7 +276,7 @@ class SchedGen:
         r, t = self.rng, self.rng.randrange(self.T)
         choices = ["ra", "na", "da", "vo", "sv"]
         if self.use_stacks:
-            choices += ["ns", "ns", "act", "deact", "del", "rec", "nr", "ra"]
+            choices += ["ns", "ns", "act", "deact", "del", "rec", "nr", "ra", "nsf"]
         if self.h[t] > 0:
             choices += ["lk", "ul", "ul"]
         op = r.choice(choices)
@@ -265,6 +287,11 @@ class SchedGen:
             else:
                 st = "err"            # stack_already_active: no object is created
             self.emit("%d ns %d" % (t, s), "%s ptr=%d" % (st, self.active[t]))
+        elif op == "nsf":
+            # a constructor whose f-th array allocation fails: no object, the thread's pointer is what it was (whether or not
+            # another stack is active: allocation comes before activation)
+            s = self.next_stack; self.next_stack += 1
+            self.emit("%d nsf %d %d" % (t, s, r.randint(0, 2)), "fail ptr=%d" % self.active[t])
         elif op in ("act", "deact", "del"):
             if not self.stacks[t]:
                 return
